@@ -86,7 +86,7 @@ def clause_a(rep, F):
                 uses = 1 if (read1 or whole or moved) else 0
             rep.check(uses > 0, "error-not-dropped", "%s<-%s" % (short(k), short(ck or "?")),
                       "the Result of this call is dropped: an error raised by the callee is silently ignored", site=site(f, t["sp"]))
-    rep.floor("Result<_, ScanError>-returning call sites", n, 170)
+    rep.floor("Result<_, ScanError>-returning call sites", n, 120)
 
 
 def clause_b(rep, F):
@@ -149,7 +149,6 @@ GUARDS = [
     (S + "resolve_flow_scalar_escape_sequence", "invalid code point in escape", ["discr(", "char::from_u32("], "none"),
     (P + "parse_node", "alias with no anchor", ["discr(", "HashMap::get(", "anchors"], "none"),
     (P + "parser_process_directives", "repeated %YAML directive", ["phi("], "true"),
-    (S + "increase_flow_level", "flow nesting limit", ["discr(", "checked_add("], "break"),
 ]
 
 
@@ -196,6 +195,10 @@ def clause_d(rep, F):
         rep.check(good >= 1, "guard-implies-err", "%s:%s" % (short(fk), label),
                   "no guard of this kind leads to an error on every path any more (%d candidate tests found): this ill-formedness is now accepted" % found,
                   site=f.span)
+    # flow nesting limit (either formulation accepted, see C11.flow_depth_bound)
+    from . import C11
+    okb, how = C11.flow_depth_bound(F)
+    rep.check(okb, "guard-implies-err", "scanner::Scanner::increase_flow_level:flow nesting limit", "exceeding the flow nesting limit no longer leads to an error", detail=how)
     # unknown escape: the default arm of the switch on the escape character reaches Err
     rf = F.fn(S + "resolve_flow_scalar_escape_sequence")
     okdef = False
@@ -281,7 +284,7 @@ def clause_c(rep, F):
         grown = sorted(got - set(want))
         rep.check(not grown, "accept-set", nm, "token kind(s) %s used to be a syntax error in state %s and now have a non-error outcome" % (grown, nm),
                   detail={"confirmed": want, "now": sorted(got)})
-    rep.floor("handler instances with an acceptance set", n, 24)
+    rep.floor("handler instances with an acceptance set", n, 30)
 
 
 def run(tier):
